@@ -50,7 +50,7 @@ def gen_wcs(rng, projs=PROJS, frames=FRAMES, parities=(1, -1), log10_scale=(math
     return {'proj': rng.choice(projs), 'frame': rng.choice(frames), 'lon0': rng.uniform(0.0, 360.0),
             'lat0': rng.uniform(-85.0, 85.0) if rng.random() < 0.85 else rng.choice([0.0, 84.9, -84.9, 45.0]),
             'rot': rot, 'scale': 10.0 ** rng.uniform(*log10_scale), 'parity': rng.choice(list(parities)),
-            'crpix': [float(rng.randint(1, 2048)), float(rng.randint(1, 2048))]}
+            'crpix': [float(rng.randint(1, 2048)), float(rng.randint(1, 2048))], 'enc': rng.choice(ENCODINGS)}
 
 
 def build_wcs(d):
@@ -67,11 +67,38 @@ def build_wcs(d):
             w.wcs.equinox = 1950.0
     w.wcs.crval = [d['lon0'], d['lat0']]
     w.wcs.crpix = list(d['crpix'])
-    th = math.radians(d['rot'])
-    w.wcs.cdelt = [-d['scale'] * d['parity'], d['scale']]
-    w.wcs.pc = [[math.cos(th), -math.sin(th)], [math.sin(th), math.cos(th)]]
+    set_linear(w, d)
     w.wcs.set()
     return w
+
+
+ENCODINGS = ['pc', 'cd', 'pcflip', 'crota']
+
+
+def set_linear(w, d):
+    """the linear part  CD = [[-s p cos t, s p sin t], [s sin t, s cos t]]  (s = pixel size, p = parity, t = rotation) written in
+    one of the FITS-legal ways `d['enc']`: the SAME transformation (up to rounding) whatever the encoding —
+      'pc'     CDELT = (-s p, s) and PC = rotation matrix                      (the default of this file's first version)
+      'cd'     the full CD matrix, no CDELT / PC                               (HST / archive style; get_cdelt() = [1, 1])
+      'pcflip' CDELT = (s, s) > 0, the parity flip inside PC
+      'crota'  CDELT = (-s p, s) and CROTA2 = -p t                             (AIPS convention)
+    Model and oracle never read these keywords: they see the WCS only through pixel<->world evaluations."""
+    s_, p_, th = d['scale'], d['parity'], math.radians(d['rot'])
+    c, sn = math.cos(th), math.sin(th)
+    enc = d.get('enc', 'pc')
+    if enc == 'pc':
+        w.wcs.cdelt = [-s_ * p_, s_]
+        w.wcs.pc = [[c, -sn], [sn, c]]
+    elif enc == 'cd':
+        w.wcs.cd = [[-s_ * p_ * c, s_ * p_ * sn], [s_ * sn, s_ * c]]
+    elif enc == 'pcflip':
+        w.wcs.cdelt = [s_, s_]
+        w.wcs.pc = [[-p_ * c, p_ * sn], [sn, c]]
+    elif enc == 'crota':
+        w.wcs.cdelt = [-s_ * p_, s_]
+        w.wcs.crota = [0.0, -p_ * d['rot']]
+    else:
+        raise ValueError(enc)
 
 
 def field_radius(wd, max_deg=25.0):
@@ -568,16 +595,15 @@ def edit_wcs_inplace(w, d):
     transformation as a WCS built from scratch with `d`: asserted field by field and on probe points."""
     w.wcs.crval = [d['lon0'], d['lat0']]
     w.wcs.crpix = list(d['crpix'])
-    th = math.radians(d['rot'])
-    w.wcs.cdelt = [-d['scale'] * d['parity'], d['scale']]
-    w.wcs.pc = [[math.cos(th), -math.sin(th)], [math.sin(th), math.cos(th)]]
+    set_linear(w, d)           # same encoding as the warm settings (warm_wcs_desc keeps 'enc')
     w.wcs.lonpole = float('nan')
     w.wcs.latpole = 90.0
     w.wcs.set()
     f = build_wcs(d)
     same = (list(w.wcs.ctype) == list(f.wcs.ctype) and w.wcs.radesys == f.wcs.radesys
             and np.array_equal(w.wcs.crval, f.wcs.crval) and np.array_equal(w.wcs.crpix, f.wcs.crpix)
-            and np.array_equal(w.wcs.cdelt, f.wcs.cdelt) and np.array_equal(w.wcs.pc, f.wcs.pc)
+            and np.array_equal(w.wcs.get_cdelt(), f.wcs.get_cdelt()) and np.array_equal(w.wcs.get_pc(), f.wcs.get_pc())
+            and np.array_equal(w.pixel_scale_matrix, f.pixel_scale_matrix)
             and w.wcs.lonpole == f.wcs.lonpole and w.wcs.latpole == f.wcs.latpole
             and (w.wcs.equinox == f.wcs.equinox or (np.isnan(w.wcs.equinox) and np.isnan(f.wcs.equinox))))
     cx, cy = d['crpix']
